@@ -59,8 +59,15 @@ def checks_attr(i):
 
 
 def checks_of(i):
+    """name -> safety check object, whether the inspector keeps them in a dict or in a
+    list / tuple of objects that carry their own name."""
     k = checks_attr(i)
-    return i.__dict__[k] if k else {}
+    if k:
+        return i.__dict__[k]
+    for v in i.__dict__.values():
+        if isinstance(v, (list, tuple)) and v and all(hasattr(c, 'target_fn') for c in v):
+            return {getattr(c, 'name', n): c for n, c in enumerate(v)}
+    return {}
 
 
 def inspectors_attr(w):
@@ -78,16 +85,65 @@ def inspectors_of(w):
     return w.__dict__[k] if k else []
 
 
+def attrs_of(o):
+    """(name, value) of every instance attribute, for objects with a __dict__, with
+    __slots__ (anywhere in the class hierarchy), or both."""
+    out = {}
+    for cls in type(o).__mro__:
+        for name in getattr(cls, '__slots__', ()) or ():
+            if isinstance(name, str) and name not in ('__dict__', '__weakref__') and hasattr(o, name):
+                try:
+                    out[name] = getattr(o, name)
+                except AttributeError:
+                    pass
+    out.update(getattr(o, '__dict__', {}))
+    return out
+
+
+def canon_value(v, depth=0, skip=()):
+    """Structural canonical form of an arbitrary attribute value: never contains an object
+    address (a default repr would make every clone a different state)."""
+    if isinstance(v, _SIMPLE):
+        return v
+    if isinstance(v, (bytearray, memoryview)):
+        return bytes(v)
+    if depth > 6:
+        return '...'
+    if isinstance(v, (list, tuple)):
+        return tuple(canon_value(x, depth + 1, skip) for x in v)
+    if isinstance(v, (set, frozenset)):
+        return tuple(sorted((canon_value(x, depth + 1, skip) for x in v), key=repr))
+    if isinstance(v, dict):
+        return tuple(sorted(((canon_value(k, depth + 1, skip), canon_value(x, depth + 1, skip))
+                             for k, x in v.items()), key=repr))
+    if isinstance(v, fi.FileInspector):
+        return ('inspector', getattr(v, 'NAME', type(v).__name__))
+    if callable(v):
+        return ('callable', getattr(v, '__qualname__', getattr(v, '__name__', type(v).__name__)))
+    if _looks_like_region(v):
+        return canon_region(v)
+    a = attrs_of(v)
+    if a:
+        return (type(v).__name__,) + tuple(sorted((k, canon_value(x, depth + 1, skip))
+                                                  for k, x in a.items() if k not in skip))
+    r = repr(v)
+    return type(v).__name__ if ' at 0x' in r else r
+
+
 def canon_region(r):
-    return (type(r).__name__, r.offset, r.length, r.min_length, r.data,
-            getattr(r, '_complete', None))
+    # the public face (offset, length, min_length, data) plus every other instance attribute
+    # (an end-of-stream flag, a private buffer ...), whatever it is called
+    extra = tuple(sorted((k, canon_value(v, 1))
+                         for k, v in attrs_of(r).items()
+                         if k not in ('offset', 'length', 'min_length', 'data') and not callable(v)))
+    return (type(r).__name__, r.offset, r.length, r.min_length, bytes(r.data), extra)
 
 
 def canon_inspector(i):
     ra, ca = regions_attr(i), checks_attr(i)
     regs = tuple((n,) + canon_region(r) for n, r in regions_of(i).items())
     other = tuple(sorted(
-        (k, v if isinstance(v, _SIMPLE) else repr(v))
+        (k, canon_value(v, 1))
         for k, v in i.__dict__.items()
         if k not in (ra, ca, '_tracing') and
         not callable(v)))
@@ -145,10 +201,13 @@ def region_exactness(i, data, p):
 # value that is not an immutable scalar is deep-copied, bound safety checks are
 # re-bound to the clone; `selfcheck_clone` compares it with deepcopy)
 
-def _clone_plain(o):
+def _clone_plain(o, memo=None):
+    if not hasattr(o, '__dict__') or getattr(type(o), '__slots__', None):
+        # objects with __slots__ (or anything unusual): the general mechanism
+        return copy.deepcopy(o, memo if memo is not None else {})
     n = object.__new__(type(o))
     for k, v in o.__dict__.items():
-        n.__dict__[k] = v if isinstance(v, _SIMPLE) else copy.deepcopy(v)
+        n.__dict__[k] = v if isinstance(v, _SIMPLE) else copy.deepcopy(v, memo if memo is not None else {})
     return n
 
 
@@ -156,9 +215,14 @@ def clone_inspector(i):
     n = object.__new__(type(i))
     d = n.__dict__
     ra, ca = regions_attr(i), checks_attr(i)
+    # whatever is deep-copied below sees the inspector itself already mapped to its clone, so
+    # bound methods and back references inside unknown structures are re-bound, not duplicated
+    memo = {id(i): n}
     for k, v in i.__dict__.items():
         if k == ra:
-            d[k] = {name: _clone_plain(r) for name, r in v.items()}
+            d[k] = {name: _clone_plain(r, memo) for name, r in v.items()}
+        elif k == ca and not all(hasattr(c, '__dict__') for c in v.values()):
+            d[k] = copy.deepcopy(v, memo)
         elif k == ca:
             checks = {}
             for name, c in v.items():
@@ -170,13 +234,13 @@ def clone_inspector(i):
                         nc.__dict__[ck] = cv
                     else:
                         nc.__dict__[ck] = (cv if isinstance(cv, _SIMPLE)
-                                           else copy.deepcopy(cv))
+                                           else copy.deepcopy(cv, memo))
                 checks[name] = nc
             d[k] = checks
         elif isinstance(v, _SIMPLE):
             d[k] = v
         else:
-            d[k] = copy.deepcopy(v)
+            d[k] = copy.deepcopy(v, memo)
     return n
 
 
@@ -249,7 +313,7 @@ def canon_wrapper(w):
         elif isinstance(v, _SIMPLE):
             items.append((k, v))
         else:
-            items.append((k, repr(v)))
+            items.append((k, canon_value(v, 1)))
     return tuple(items)
 
 
